@@ -341,12 +341,11 @@ Fixpoint term_eqb (a b : term) : bool :=
 (* ---------- acceptance: SanityCheckNewHeight + Store ---------- *)
 Record chain_state := {
   cs_head : option (Z * term);       (* number and hash of the head; None = empty chain *)
-  cs_root : term;                    (* GlobalStateRoot stored in the head's header; 0 for the empty chain *)
   cs_state : state;                  (* the head state (C01.State) *)
   cs_blocks : list block             (* everything stored, newest first *)
 }.
 
-Definition empty_chain : chain_state := {| cs_head := None; cs_root := TC 0; cs_state := empty_state; cs_blocks := [] |}.
+Definition empty_chain : chain_state := {| cs_head := None; cs_state := empty_state; cs_blocks := [] |}.
 
 (* verifyBlockSuccession *)
 Definition succession_ok (cs : chain_state) (b : block) : bool :=
@@ -376,28 +375,25 @@ Definition pre_0_14 (b : block) : bool := negb (ver_ge (h_ver (b_hdr b)) (0, 14,
 (* state.Update: the state the node holds must have root OldRoot; the diff applied to it must give the
    declared root (GlobalStateRoot = StateUpdate.NewRoot, compared in SanityCheckNewHeight) *)
 Definition new_state (cs : chain_state) (b : block) : state := apply_diff true (cs_state cs) (to_diff (b_diff b)).
-(* [strict] = the new state backend (core/state), whose Store first requires StateUpdate.OldRoot to be the
-   root recorded in the head's header (verifyOldRootMatchesHead); both backends then require OldRoot to be
-   the commitment of the state they hold, computed under the NEW block's protocol version (verifyComm /
-   verifyStateUpdateRoot). The two coincide except when a chain crosses 0.14.0 with an empty class trie. *)
-Definition roots_ok (strict : bool) (cs : chain_state) (b : block) : bool :=
-  (if strict then term_eqb (b_old_root b) (cs_root cs) else true) &&
+(* Both backends open the HEAD's state (the new backend since /repo 14a038f; the legacy one always did) and
+   require StateUpdate.OldRoot to be its commitment computed under the NEW block's protocol version
+   (verifyComm / verifyStateUpdateRoot); the block hash does not cover OldRoot. *)
+Definition roots_ok (cs : chain_state) (b : block) : bool :=
   term_eqb (commitment (pre_0_14 b) (cs_state cs)) (b_old_root b) &&
   term_eqb (commitment (pre_0_14 b) (new_state cs b)) (h_state_root (b_hdr b)).
 
-Definition accept (chain : Z) (strict : bool) (cs : chain_state) (b : block) : option chain_state :=
+Definition accept (chain : Z) (cs : chain_state) (b : block) : option chain_state :=
   if receipts_match (b_txs b) (b_rcpts b) && tx_hashes_ok chain b && block_hash_ok b
-     && succession_ok cs b && roots_ok strict cs b
+     && succession_ok cs b && roots_ok cs b
   then Some {| cs_head := Some (h_number (b_hdr b), b_hash b);
-               cs_root := h_state_root (b_hdr b);
                cs_state := new_state cs b;
                cs_blocks := b :: cs_blocks cs |}
   else None.
 
 (* store a sequence of blocks; rejected blocks leave the chain as it is *)
-Definition push (chain : Z) (strict : bool) (cs : chain_state) (b : block) : chain_state :=
-  match accept chain strict cs b with Some cs' => cs' | None => cs end.
-Definition run (chain : Z) (strict : bool) (bs : list block) : chain_state := fold_left (push chain strict) bs empty_chain.
+Definition push (chain : Z) (cs : chain_state) (b : block) : chain_state :=
+  match accept chain cs b with Some cs' => cs' | None => cs end.
+Definition run (chain : Z) (bs : list block) : chain_state := fold_left (push chain) bs empty_chain.
 
 (* ---------- sealing: complete a block's hashes, linkage and roots from the model (what the harness does
    with evaluated terms; used by the non-vacuity examples) ---------- *)
